@@ -73,7 +73,17 @@ func backoffClampRule(c *Ctx, rule string) {
 		}
 		switch x := v.(type) {
 		case *ssa.Call:
-			return x == pow
+			if x == pow {
+				return true
+			}
+			// any other call passes its arguments on (math.Abs, a helper); the builtin min
+			// propagates NaN, so it is no clamp for 0 * +Inf either
+			for _, a := range x.Call.Args {
+				if unclamped(a, depth+1) {
+					return true
+				}
+			}
+			return false
 		case *ssa.BinOp:
 			return unclamped(x.X, depth+1) || unclamped(x.Y, depth+1)
 		case *ssa.UnOp:
@@ -99,8 +109,10 @@ func backoffClampRule(c *Ctx, rule string) {
 					if l.S.Op != "bin" || !symMentions(l.S, "MaxBackoff") {
 						continue
 					}
-					a0, a1 := l.S.Args[0].String(), l.S.Args[1].String()
-					if (l.S.Name == "<" && a1 == es && !l.Truth) || (l.S.Name == "<=" && a0 == es && l.Truth) {
+					a0 := l.S.Args[0].String()
+					// only a comparison that HOLDS bounds the value: NOT (cap < e) is also true for
+					// NaN (0 * +Inf), which then reaches the conversion
+					if (l.S.Name == "<=" || l.S.Name == "<") && a0 == es && l.Truth {
 						okEdge = true
 					}
 				}
@@ -121,7 +133,7 @@ func backoffClampRule(c *Ctx, rule string) {
 		n++
 		bad := unclamped(cv.X, 0)
 		c.check(!bad, rule, fmt.Sprintf("float->integer conversion #%d in CalculateBackoff is applied after the MaxBackoff clamp", n), in,
-			"the converted value %s depends on the exponential term without passing the clamp: %v (InitialBackoff * Multiplier^n overflows int64 from n of about 38: negative or absurd waits)", clip(m.Sym.Of(cv.X).String(), 120), bad)
+			"the converted value %s depends on the exponential term without passing a clamp of the form `value <= MaxBackoff` that holds: %v (InitialBackoff * Multiplier^n overflows int64 from n of about 38, and 0 * +Inf is NaN, which passes `!(value > cap)` and the builtin min: negative or absurd waits)", clip(m.Sym.Of(cv.X).String(), 120), bad)
 	})
 	if n == 0 {
 		c.undecided(rule, "conversion to Duration", firstInstr(f), "no float->integer conversion found in CalculateBackoff")
@@ -765,6 +777,31 @@ func retryLoopRule(c *Ctx, rule string) {
 		})
 		if nMax == 0 {
 			c.viol(rule, "at most MaxAttempts invocations (0 = unbounded)", firstInstr(rb), "no test `attempt >= cfg.MaxAttempts-1` on the loop counter found")
+		}
+		// a negative limit is not "unbounded"
+		nNeg := 0
+		eachUnit(func(in ssa.Instruction) {
+			ifi, ok := in.(*ssa.If)
+			if !ok {
+				return
+			}
+			l := m.litOf(ifi.Cond, true, ifi)
+			if l.S.Op == "bin" && l.S.Name == "<" && strings.HasSuffix(l.S.Args[0].String(), ".MaxAttempts") && l.S.Args[1].String() == "0" {
+				nNeg++
+				edge := map[bool]int{true: 0, false: 1}[l.Truth]
+				var hit ssa.Instruction
+				m.explore(in.Block(), edge, 0, func(x ssa.Instruction, flag int) (int, bool) {
+					if isInvocation(x) {
+						hit = x
+						return flag, true
+					}
+					return flag, false
+				}, nil)
+				c.check(hit == nil, rule, "a negative MaxAttempts invokes nothing", in, "an invocation is reachable from the MaxAttempts < 0 edge: %v", hit != nil)
+			}
+		})
+		if nNeg == 0 {
+			c.viol(rule, "a negative MaxAttempts invokes nothing", firstInstr(rb), "the limit is only applied under MaxAttempts > 0 and MaxAttempts < 0 is not tested: a negative limit retries without bound, like 0")
 		}
 	}
 }
